@@ -53,8 +53,9 @@ TEXT.update({
             "path for a brace target listing _Default) holds and the text filter matches (unit-local effect permissions); FlexiLogger::enabled equals the "
             "specification for plain targets and is never false when an addressed writer accepts the level; WritersHandle::set_new_spec passes "
             "new_spec.max_level() to reconfigure. Kani proves the Level/LevelFilter comparison tables the Verus axioms rest on.",
-            "The `if` direction (the hand-over happens) has no observable post-state behind &self; level_sort / max_level / reconfigure's HashMap loop are "
-            "not decided yet (iterator adapters); regex semantics, core::fmt are oracles; enabled() for {..,_Default} with module filters cannot hold "
+            "The `if` direction (the hand-over happens) has no observable post-state behind &self; level_sort (a permutation in descending byte length of the "
+            "names, from which the longest-prefix lemma is proved) and max_level (maximum of the entries' filters) are proved through eager shims for "
+            "sort_by / iter().map().max() specified by the closures' contracts (trusted: the shims, `a proper prefix is shorter in bytes`); regex semantics, core::fmt are oracles; enabled() for {..,_Default} with module filters cannot hold "
             "(Metadata carries no module path) and is not claimed."),
     "C05": ("Verus proves on the extracted bodies: push_temp_spec / pop_temp_spec / parse_and_push_temp_spec keep an exact stack of saved specifications "
             "and activate exactly the new / popped / parsed specification; a malformed string leaves stack and active specification unchanged (this "
